@@ -1,6 +1,67 @@
-/- C14 — model not written yet (stub so that the driver target exists). -/
-namespace Nitime.C14
+/-
+C14 — driver side: the `OneTime` machine (Model/OneTime.lean) with `retarget` on the GENERATED class
+tables, symbolic semantics as in Model/C13.lean.  The dictionaries `reset` walks are taken from the
+generated `resetWalksMRO`; a class name prefixed `sub:` is a user subclass that adds nothing.
 
-def handle (_args : List String) : String := "bad-op"
+ops (first token `C14` already stripped):
+  retarget <Class> <cfg> <pre> <post>            set_input(new input) after the reads `pre`
+  reparam  <Class> <cfg> <pre> <slots> <post>    reset(); assign new values to `slots`
+  slice    <Class> <cfg> <pre>                   `Epochs.__getitem__` after the reads `pre`, then read every getter
+answer: surv=<getters still stored after the switch>|<g>:s=<1 equal to a newly built object for every F / 0 / r>|…
+-/
+import Nitime.Model.C13
+
+namespace Nitime.C14
+open Nitime.OneTime Nitime.Proto Nitime.C13
+
+def findSpec? (cls : String) : Option AnalyzerSpec :=
+  if cls.startsWith "sub:" then (C13.findSpec? (cls.drop 4).toString).map (·.subclass)
+  else C13.findSpec? cls
+
+def postReads (spec : Spec) (fresh : St String String) :
+    List Nat → St String String → List String → List String
+  | [], _, acc => acc.reverse
+  | g :: gs, s, acc =>
+    let (s', r) := read spec symSem g s
+    let same := match r with
+      | none => "r"
+      | some v => if (read spec symSem g fresh).2 == some v then "1" else "0"
+    postReads spec fresh gs s' (s!"{g}:s={same}" :: acc)
+
+def switch (sp : AnalyzerSpec) (cfg pre changed post : List Nat) (newInput : String)
+    (refreshed : List Nat) : String :=
+  let spec := sp.resolve cfg
+  let cp := initParams sp cfg
+  let new : Nat → Option String := fun p => some s!"q{p}"
+  let s := run spec symSem pre (construct symSem sp.initDerived cp "x")
+  let s' := retarget symSem (sp.walked Generated.resetWalksMRO) refreshed changed new newInput s
+  let fresh := construct symSem sp.initDerived
+    (fun p => if changed.contains p then new p else cp p) newInput
+  let surv := (List.range sp.getters.length).filter fun k => (s'.cache k).isSome
+  "|".intercalate (s!"surv={showNatList surv}" :: postReads spec fresh post s' [])
+
+def handle (args : List String) : String :=
+  match args with
+  | ["retarget", cls, cfg, pre, post] =>
+    match findSpec? cls, parseNatList? cfg, parseNatList? pre, parseNatList? post with
+    | some sp, some cfg, some pre, some post => switch sp cfg pre [] post "x1" sp.refreshed
+    | none, _, _, _ => "unknown-class"
+    | _, _, _, _ => "bad-op"
+  | ["reparam", cls, cfg, pre, slots, post] =>
+    match findSpec? cls, parseNatList? cfg, parseNatList? pre, parseNatList? slots, parseNatList? post with
+    | some sp, some cfg, some pre, some slots, some post => switch sp cfg pre slots post "x" []
+    | none, _, _, _, _ => "unknown-class"
+    | _, _, _, _, _ => "bad-op"
+  | ["slice", cls, cfg, pre] =>
+    match findSpec? cls, parseNatList? cfg, parseNatList? pre with
+    | some sp, some cfg, some pre =>
+      let dataSlots := (List.range sp.slotNames.length).filter fun p =>
+        match sp.slotNames[p]? with
+        | some n => n == "data" || n.startsWith "data."
+        | none => false
+      switch sp cfg pre dataSlots (List.range sp.getters.length) "x" []
+    | none, _, _ => "unknown-class"
+    | _, _, _ => "bad-op"
+  | _ => "bad-op"
 
 end Nitime.C14
